@@ -44,6 +44,15 @@ claimed = {
         "NOT decided: the exact salt / info strings and the salt re-hashing of the IETF BLS KeyGen (the hash values of crypto/sha256 are not specified: only sizes and frames), which hash constructor is passed to HKDF (function values are not compared), determinism is implied by the functional contracts of the assumed libraries.",
    note=TRUSTED + " crypto/hkdf, crypto/sha256, crypto/ecdh, btcec, crypto/elliptic, math/big are assumed contracts (contracts/trusted/ecdsa.spec, stdlib.spec); the curve contexts' values are assumed global facts.",
    design="§0.2, §5 C12"),
+ "C03": dict(
+   text="The deterministic structure of batch verification is verified (go/ssa and clang AST); the statement `equal to individual verification except with probability 2^-128` is a paper step over it. "
+        "C: bls_batch_verify marks exactly the entries whose 48 bytes are not the canonical encoding of a point of G1 as INVALID up front (decoding AND subgroup check) and replaces them by the neutral pair; every other entry enters the tree as (c_k * pk_k, c_k * s_k) with the SAME coefficient c_k = 1 + (k-th 16-byte chunk of the seed) on key and signature (loop invariants over spec-level sequences); for a 128-byte hash every entry ends VALID or INVALID, a premarked INVALID is never overwritten. "
+        "bls_batch_verify_tree (recursive, against the abstract tree predicate treeOK unfolded one level): INVALID marks are kept, every UNDEFINED entry of the range is decided, a verifying aggregate validates exactly the undecided entries of its range, a failing leaf is INVALID, the two recursive calls cover [0, len - len/2) and [len - len/2, len) with the matching subtrees, all writes stay inside results[0:len). "
+        "build_tree: memory safety, frame, and the root holds the tree-shaped sum (spec function, unfolded once) of the leaves' signatures / keys; its well-formedness postcondition treeOK is an ASSUMED clause. "
+        "Go: BatchVerifyBLSSignaturesOneMessage returns one verdict per signature, all false with the documented error class on an input error, false for a wrong-length signature or an identity key, and true ONLY for a 48-byte canonical encoding of a G1 point under a non-identity key (flattened chunks proved to decode like the input signatures); the seed handed to C is proved to be, byte for byte, what crypto/rand.Read wrote (16 bytes per signature). "
+        "NOT decided: the probabilistic soundness of random linear combinations, the link `leaf check with coefficient c == individual Verify` (group theory), well-formedness of the tree built by build_tree (assumed).",
+   note=TRUSTED + " treeOK of build_tree's result is assumed (frame argument over recursively allocated nodes not mechanised); malloc is assumed to succeed; BLST primitives uninterpreted; crypto/rand.Read fills the buffer with system randomness (marker semantics).",
+   design="§0.2, §5 C03"),
  "C04": dict(
    text="Every aggregation function is proved, for all list lengths and contents, to return THE sum of its inputs in the group it works in, stated with spec-level left folds (e1sum / e2sum / frsum: identity for n <= 0, add(sum(n-1), x[n-1]) otherwise) over the uninterpreted BLST additions: "
         "C (from the clang AST): Fr_sum_vector, E1_sum_vector, E2_sum_vector (loop invariant `partial sum`), E2_sum_vector_to_affine (= affine form of the sum, infinity preserved), E2_subtract_vector (= x + (-(sum y))), "
